@@ -180,6 +180,76 @@ theorem yields_all (ss : List Step) (w : Win) (h : (runW ss w).2.l = 0) :
 /-! non-vacuity: window of 3 positions, steps F B B F F: yields 2, 4, 3, none, none -/
 example : (runW [.F, .B, .B, .F, .F] ⟨2, 3⟩).1 = [some 2, some 4, some 3, none, none] := by decide
 
+
+/-! ## adaptor-style consumption: `nth`, `nth_back`, `last`, `count` are iterated `next` / `next_back`
+
+std's provided methods (the generated iterators do not override them) are defined by repeated stepping; so the
+"any consumption pattern" of the property reduces to the front/back interleavings above. -/
+
+def nextN : Nat → Win → Win
+  | 0, w => w
+  | k + 1, w => nextN k (View.next w).2
+
+def nextBackN : Nat → Win → Win
+  | 0, w => w
+  | k + 1, w => nextBackN k (View.nextBack w).2
+
+theorem nextN_eq : ∀ (k : Nat) (w : Win), nextN k w = if k ≤ w.l then ⟨w.s + k, w.l - k⟩ else ⟨w.s + w.l, 0⟩
+  | 0, w => by simp [nextN]
+  | k + 1, w => by
+    rw [nextN, nextN_eq k]
+    unfold View.next
+    by_cases h0 : w.l = 0
+    · simp [h0]
+    · simp only [h0, ↓reduceIte]
+      by_cases hk : k + 1 ≤ w.l
+      · have : k ≤ w.l - 1 := by omega
+        simp only [this, hk, ↓reduceIte, Win.mk.injEq]; omega
+      · have : ¬ k ≤ w.l - 1 := by omega
+        simp only [this, hk, ↓reduceIte, Win.mk.injEq]
+        exact ⟨by omega, trivial⟩
+
+/-- `nth(k)` = `k` times `next()`, then `next()` -/
+theorem nth_is_iterated_next (w : Win) (k : Nat) : View.nth w k = View.next (nextN k w) := by
+  rw [nextN_eq]
+  unfold View.nth View.next
+  by_cases hk : k < w.l
+  · have : k ≤ w.l := by omega
+    have h2 : w.l - k ≠ 0 := by omega
+    simp [hk, this, h2]
+  · by_cases he : k ≤ w.l
+    · have : w.l - k = 0 := by omega
+      have hkl : k = w.l := by omega
+      simp [hk, he, this, hkl]
+    · simp [hk, he]
+
+theorem nextBackN_eq : ∀ (k : Nat) (w : Win), nextBackN k w = ⟨w.s, w.l - k⟩
+  | 0, w => by simp [nextBackN]
+  | k + 1, w => by
+    rw [nextBackN, nextBackN_eq k]
+    unfold View.nextBack
+    by_cases h0 : w.l = 0
+    · simp [h0]
+    · simp only [h0, ↓reduceIte, Win.mk.injEq, true_and]; omega
+
+/-- `nth_back(k)` = `k` times `next_back()`, then `next_back()` -/
+theorem nthBack_is_iterated_nextBack (w : Win) (k : Nat) : View.nthBack w k = View.nextBack (nextBackN k w) := by
+  rw [nextBackN_eq]
+  unfold View.nthBack View.nextBack
+  by_cases hk : k < w.l
+  · have h2 : w.l - k ≠ 0 := by omega
+    simp only [hk, ↓reduceIte, h2, Prod.mk.injEq, Win.mk.injEq, true_and]
+    constructor
+    · congr 1; omega
+    · omega
+  · have : w.l - k = 0 := by omega
+    simp [hk, this]
+
+/-- `last()` yields what the final `next_back()` would and exhausts the iterator; `count()` is the remaining length -/
+theorem last_is_nextBack (w : Win) : (View.lastOf w).1 = (View.nextBack w).1 ∧ (View.lastOf w).2.l = 0 := by
+  unfold View.lastOf View.nextBack
+  by_cases h : w.l = 0 <;> simp [h]
+
 /-- **text pin**: the generated functions this property's hand-written model describes have, in
     /repo today, exactly the text the model was written from (`Soa/Model/Pinned.lean`) -/
 theorem bodies_pinned : Soa.Extracted.bodies_C06 = Soa.Model.pinned_C06 := rfl
